@@ -153,7 +153,9 @@ pub fn run(tier: &str, seed: u64, report: &mut Report) {
                 let kinds: &[&str] = if thorough { &["nf", "ae", "pd", "ot"] } else { &["nf", "ot"] };
                 for i in 0..real.trace.len() {
                     let (verb, path, nth) = op_id_of(&real.trace, i).unwrap();
-                    if verb != "read" && verb != "list" {
+                    // every read-class operation: file reads, listings and stats ("a storage read fails while
+                    // it is working out what is referenced")
+                    if verb != "read" && verb != "list" && verb != "stat" {
                         continue;
                     }
                     for kind in kinds {
